@@ -21,10 +21,11 @@ Lemma attach_all_move : forall (tl : list rtree) crs ts rs pr tid ri T q kO core
     nth_error ts' tid = Some (mk_slot true ri (upd_path T q (fun _ => Node kO core))) /\
     nth_error ts' tr = Some (mk_slot true rr' (Node kN (cs ++ tl))) /\
     F (mk_hnd tr []) = mk_hnd tr [] /\
-    (forall g, h_tid g < length ts -> h_tid g <> tr -> above tid q g -> F g = g).
+    (forall g, h_tid g < length ts -> h_tid g <> tr -> above tid q g -> F g = g) /\
+    (forall j, j <> tid -> j <> tr -> j < length ts -> nth_error ts' j = nth_error ts j).
 Proof.
   induction tl as [|x tl' IH]; intros crs ts rs pr tid ri T q kO core tr rr' kN cs Hpr HT HG HR Hne Hlen Hcrs.
-  - destruct crs; [|discriminate]. exists ts, (fun g => g). rewrite map_option_map_id. split; [|split; [|split; [|split; [|split]]]]; auto.
+  - destruct crs; [|discriminate]. exists ts, (fun g => g). rewrite map_option_map_id. split; [|split; [|split; [|split; [|split; [|split]]]]]; auto.
     + cbn [m_attach_all]. rdone.
     + rewrite app_nil_r in HG. now rewrite (upd_path_same _ _ _ HG).
     + now rewrite app_nil_r.
@@ -64,10 +65,11 @@ Proof.
       rewrite rebase_attach_above; [f_equal; f_equal; f_equal; lia|cbn; lia|apply above_other; cbn; congruence]. }
     assert (HR2 : nth_error ts2 tr = Some (mk_slot true rr' (Node kN (cs ++ [x])))) by exact T2.
     destruct (IH crs' ts2 (map (option_map F2) (map (option_map F1) rs)) pr tid ri T' q kO core tr rr' kN (cs ++ [x])
-                Hpr2 HT2 HG2 HR2 Hne ltac:(lia) Hcrs2) as (ts3 & F3 & R3 & L3 & T3 & N3 & Fr3 & A3).
+                Hpr2 HT2 HG2 HR2 Hne ltac:(lia) Hcrs2) as (ts3 & F3 & R3 & L3 & T3 & N3 & Fr3 & A3 & O3).
     exists ts3, (fun g => F3 (F2 (F1 g))). replace (map (option_map (fun g => F3 (F2 (F1 g)))) rs)
       with (map (option_map F3) (map (option_map F2) (map (option_map F1) rs))) by (now rewrite !map_option_map_comp).
-    split; [|split; [|split; [|split; [|split]]]].
+    split; [|split; [|split; [|split; [|split; [|split]]]]].
+    7:{ intros j Hj1 Hj2 Hj3. rewrite O3 by lia. rewrite O2 by lia. apply O1; [exact Hj1|exact Hj3]. }
     + cbn [m_attach_all]. rbind.
       { unfold m_attach_child. rbind; [apply runs_get_reg; exact Hcr|].
         rbind; [exact R1|].
@@ -144,7 +146,7 @@ Proof.
   assert (HGoc : get_path T ([ci] ++ [oi]) = Some (Node RELATION (core ++ tl))) by (rewrite HGo; unfold O; now rewrite <- Eocs).
   destruct (attach_all_move tl (rev (seq 6 kt)) ts rsA 4 tid ri T ([ci] ++ [oi]) RELATION core tr rr RELATION ncs
               eq_refl HT HGoc HR Hne ltac:(now rewrite rev_length, seq_length) Hcrs)
-    as (ts1 & F1 & R1 & L1 & T1 & N1 & Fr1 & A1).
+    as (ts1 & F1 & R1 & L1 & T1 & N1 & Fr1 & A1 & _).
   (* the tree after the white space has moved *)
   set (O1 := Node RELATION core) in *.
   assert (ET1 : upd_path T ([ci] ++ [oi]) (fun _ => O1) = Node k (epre ++ Node ENTRY (pre ++ O1 :: post) :: epost)).
